@@ -32,6 +32,8 @@ pub enum Op {
     /// HTTP (C17)
     HttpQuery { endpoint: HttpEndpoint, q: QSpec },
     HttpRawQuery { endpoint: HttpEndpoint, sql: String },
+    /// several statements in one /multi_query_cols request: response i must answer statement i
+    HttpMulti { endpoint: HttpEndpoint, sqls: Vec<String> },
     HttpColumns { table: String, pattern: String },
 }
 
